@@ -300,8 +300,13 @@ def emit (s : St) (pre : OneShot) (labelRefs : List Nat) (o : EncOutcome) : Res 
       let s1 := { s with relocs := s.relocs + nrel, secs := s.secs ++ List.replicate nsec ({} : Section) }
       let s2 := match fx with
         | none => s1
-        | some r => { s1 with pending := { label := r.label, sec := s.cur, off := base + r.off, rel := r.rel, fmt := r.fmt,
-                                           reloc := if r.withReloc then some (s.relocs + nrel - 1) else none } :: s1.pending }
+        | some r =>
+          let f : Fixup := { label := r.label, sec := s.cur, off := base + r.off, rel := r.rel, fmt := r.fmt,
+                             reloc := if r.withReloc then some (s.relocs + nrel - 1) else none }
+          -- `CodeHolder::new_fixup`: a label that is already bound (to another section) has no room for a chain:
+          -- the fixup goes directly to `_fixups`, to be resolved by `resolve_cross_section_fixups`
+          if ((s.labels[r.label]?).bind (·.bound)).isSome then { s1 with global := f :: s1.global }
+          else { s1 with pending := f :: s1.pending }
       -- EmitDone: reset_state(); writer.done(this)
       done (appendBytes { s2 with one := OneShot.empty } bytes)
 
